@@ -761,6 +761,53 @@ def _text_worker(arg):
     return list(seen.values()), n
 
 
+def _hdr_worker(arg):
+    """header-boundary texts (MC_ExtKeyText "hdrtext"): a text whose depth / fingerprint / child number sit at their byte
+    boundaries parses on every reader network to a key with exactly those fields, and is written back unchanged"""
+    recs, seeds = arg
+    from pycoin.networks.registry import network_for_netcode
+    nets = {c: network_for_netcode(c) for c in _G["nets_ok"]}
+    fails, n = [], 0
+    for seed in seeds:
+        root = _G["trees"][seed][()]["prv"]
+        ev = D.Evaluator({"seed": seed})
+        ev.bind(["prv", []], root)
+        for rec in recs:
+            A, fam, prv = rec["net"], rec["fam"], rec["prv"]
+            if A not in nets:
+                continue
+            want_text = ev.text(rec["text"])
+            cn = (bool(rec["cnh"]), rec["cnv"][0] * 65536 + rec["cnv"][1])
+            want = dict(root, depth=rec["depth"], pfp=bytes(rec["pfp"]), cn=cn)
+            if not prv:
+                want = _neuter(want)
+            det = {"net": A, "family": fam, "private": prv, "depth": rec["depth"], "pfp": bytes(rec["pfp"]).hex(), "cn": list(cn),
+                   "seed": seed.hex(), "spec_text": want_text}
+            cls0 = "depth=%d|%s" % (rec["depth"], "hard" if cn[0] else "normal")
+            readers = {(a, f) for a, f in rec["readers"]}
+            for B, netB in nets.items():
+                for fam2, (m_any, m_prv, m_pub) in _FAM_METHODS.items():
+                    if (B, fam2) not in readers:
+                        continue
+                    rf, r = _refused(lambda: getattr(netB.parse, m_any)(want_text))
+                    n += 1
+                    cls = "%s|%s|%s" % (cls0, fam2, "prv" if prv else "pub")
+                    if rf or r is None:
+                        fails.append(("C09|text|header|%s|want=key|got=%s" % (cls, "raises" if rf else "None"),
+                                      "%s.parse.%s does not read a %s %s text with depth %d, child %s" % (B, m_any, A, fam, rec["depth"], cn), det))
+                        continue
+                    if not _cmp(fails, "text|header", cls, want, r, dict(det, reader=[B, fam2])):
+                        continue
+                    rf, back = _refused(lambda: r.hwif(as_private=prv))
+                    if rf or back != want_text:
+                        fails.append(("C09|text|header|re-serialise|%s|%s" % (cls, "raises" if rf else "differs"),
+                                      "%s.parse.%s(text).hwif() = %r, text = %r" % (B, m_any, back, want_text), det))
+    seen = {}
+    for f in fails:
+        seen.setdefault(f[0], f)
+    return list(seen.values()), n
+
+
 def spec_text_cases(ctx):
     """the records of MC_ExtKeyText (run once): every (network, family, form, key shape) with its text term.
     Also fills _G["spec_versions"][(net, family, private)] = the four version bytes the SPEC demands."""
@@ -770,6 +817,9 @@ def spec_text_cases(ctx):
         if not recs:
             raise MachineryError("MC_ExtKeyText printed no case")
         _G["text_recs"] = recs
+        _G["hdr_recs"] = [x for x in r.records if isinstance(x, dict) and x.get("k") == "hdrtext"]
+        if not _G["hdr_recs"]:
+            raise MachineryError("MC_ExtKeyText printed no header case")
         _G["spec_versions"] = {(x["net"], x["fam"], bool(x["prv"])): bytes(x["text"]["a"]["p"][0]["v"]) for x in recs}
         _G["text_index"] = {(x["net"], x["fam"], _tp(x["path"]), bool(x["prv"])): x for x in recs}
     return _G["text_recs"]
@@ -795,6 +845,15 @@ def replay_text(ctx, seeds):
         tot += n
         for key, what, det in fails:
             ctx.fail(key, what, det)
+    hdr = _G["hdr_recs"]
+    for fails, n in pmap(_hdr_worker, [(c, seeds[:1]) for c in split(hdr, NPROC)], chunk=1):
+        tot += n
+        for key, what, det in fails:
+            ctx.fail(key, what, det)
+    ctx.replayed += len(hdr)
+    ctx.action("replay.text.header", len(hdr))
+    for x in hdr:
+        ctx.case("hdrtext|%s|%s|%s|%d" % (x["net"], x["fam"], x["prv"], x["depth"]), 0)
     ctx.case(None, tot)
     for x in recs:
         ctx.case("text|%s|%s|%s" % (x["net"], x["fam"], x["prv"]), 0)
